@@ -75,7 +75,7 @@ func TestC06_Controlled(t *testing.T) {
 	rapid.Check(t, func(t *rapid.T) {
 		setup := vk.AsyncSetup{
 			Policy:     rapid.SampledFrom([]string{"DiscardOldest", "Discard", "Block"}).Draw(t, "policy"),
-			Size:       rapid.SampledFrom([]int{100, 100, 101, 127}).Draw(t, "size"),
+			Size:       rapid.SampledFrom([]int{100, 100, 101, 127, 256, 200, 1000, 399}).Draw(t, "size"),
 			ViaRefresh: rapid.SampledFrom([]bool{false, false, true}).Draw(t, "viaRefresh"),
 			Layout:     rapid.SampledFrom([]bool{false, false, true}).Draw(t, "layout"),
 		}
